@@ -92,10 +92,15 @@ def oracle(case, ctx):
         tuner = ForecastingGridSearchCV(base, cv=build_cv(case["cv"]), param_grid=grid, scoring=metric,
                                         strategy=strategy, refit=case["refit"])
     else:
-        cands = list(ParameterSampler(grid, case["n_iter"], random_state=case["rs"]))
+        # the seed as an integer or as a generator object (one stream: the candidates that are
+        # scored are the candidates that are reported)
+        inst = case.get("rs_kind") == "instance"
+        cands = list(ParameterSampler(grid, case["n_iter"], random_state=np.random.RandomState(case["rs"]) if inst else case["rs"]))
         tuner = ForecastingRandomizedSearchCV(base, cv=build_cv(case["cv"]), param_distributions=grid,
-                                              n_iter=case["n_iter"], random_state=case["rs"], scoring=metric,
-                                              strategy=strategy, refit=case["refit"])
+                                              n_iter=case["n_iter"], random_state=np.random.RandomState(case["rs"]) if inst else case["rs"],
+                                              scoring=metric, strategy=strategy, refit=case["refit"])
+        if inst:
+            ctx.label("random_state_is_a_generator_object")
     col = "test_" + metric.name
     exp_scores = []
     for p in cands:
@@ -117,7 +122,7 @@ def oracle(case, ctx):
         exp_scores.append(float(r[col].mean()))
     fh = case["cv"]["fh"]
     yc = y.copy()
-    if case.get("prefit") and case["metric"] != "nanflat":  # (a search whose scores are all undefined has no winner)
+    if case.get("prefit") and case["metric"] != "nanflat" and not (case["search"] != "grid" and case.get("rs_kind") == "instance"):  # (a search whose scores are all undefined has no winner)
         # the same tuner object (and the caller's base forecaster inside it) ran another search
         # before: other data, another grid that sets parameters this search does not mention.
         # Every candidate of this search still starts from the base forecaster as configured.
@@ -286,7 +291,7 @@ def cases(draw):
         "refit": draw(st.sampled_from([True, True, False])),
         "strategy": draw(st.sampled_from(["refit", "refit", "update"])),
         "scale": draw(st.sampled_from([1.0, 1.0, 1e-6, 1e-4, 1e-3, 1e4])),
-        "prefit": draw(st.integers(0, 2)) == 0,
+        "prefit": draw(st.integers(0, 2)) == 0, "rs_kind": draw(st.sampled_from(["int", "instance"])),
     }
 
 
